@@ -124,6 +124,27 @@ def _letter_field(o):
     return None
 
 
+def _range_of_iteration(o):
+    """(lo, hi, inclusive) when o is the item `Some(i)` yielded by Iterator::next over a..=b / a..b"""
+    o = mir.strip_all(o)
+    if o[0] != "field":
+        return None
+    o = mir.strip_all(o[1])
+    if o[0] != "downcast" or o[2] != "Some":
+        return None
+    o = mir.strip_all(o[1])
+    if o[0] != "call" or o[1].split("::")[-1] != "next" or not o[2]:
+        return None
+    it = mir.strip_all(o[2][0])
+    while it[0] == "call" and it[1].split("::")[-1] in ("into_iter", "iter", "by_ref") and it[2]:
+        it = mir.strip_all(it[2][0])
+    if it[0] == "call" and it[1].endswith("RangeInclusive::<Idx>::new") and len(it[2]) == 2:
+        return it[2][0], it[2][1], True
+    if it[0] == "agg" and (it[2] or "").endswith("Range") and not (it[2] or "").endswith("RangeInclusive") and len(it[3]) == 2:
+        return it[3][0], it[3][1], False
+    return None
+
+
 def _table_writes(prog, fn, region, subst, depth):
     """[(lo, hi, inclusive, value)] for every write to `ranges` in the blocks `region` of fn
     (None = all) and in the helpers it calls there."""
@@ -162,7 +183,13 @@ def _table_writes(prog, fn, region, subst, depth):
             x = base_local(idx[0]["i"])
             ds = [d for d in defs.get(x, []) if not body.is_cleanup(d[0])]
             if len(ds) == 1:
-                o = _norm(pv.of_local(x), subst)
+                raw = mir.strip_all(pv.of_local(x))
+                rng = _range_of_iteration(raw)
+                if rng is not None:
+                    # `for i in a..=b` / `for i in a..b`: the index is the item of the range's iterator
+                    out.append((_norm(rng[0], subst), _norm(rng[1], subst), rng[2], val))
+                    continue
+                o = _norm(raw, subst)
                 out.append((o, o, True, val))
                 continue
             # counting loop: init from a call / value, increment by one, guard x <= y or x < y
